@@ -19,3 +19,21 @@ package retention
 //@   site mapupdate segmentsToDelete[entry.SegmentKey] #1:
 //@     assert [segment-expired] entry.LatestEpochMS <= deleteBefore
 //@ end
+
+// C14 (the outcome is the same if the pass is interrupted and repeated, and
+// nothing of an expired segment survives): DeleteSegmentData removes the local
+// directories of the victims BEFORE it drops their entries from segmeta.json —
+// segmeta.json is the only record from which a repeated pass can find a
+// segment again, so files removed after their entry could stay forever — and
+// the directories are the ones derived from the victims' own keys, not
+// whatever the segmeta rewrite reports.
+//@ ghostdecl segDirsRemoved int
+//@ func DeleteSegmentData
+//@   props C14
+//@   ghostinit ghost(0, "segDirsRemoved") == 0
+//@   site call writer.RemoveSegBasedirs #1:
+//@     ghostset ghost(0, "segDirsRemoved") = 1
+//@   site call writer.RemoveSegMetas #1:
+//@     assert [files-removed-before-their-segmeta-entry] ghost(0, "segDirsRemoved") == 1
+//@     assert [entries-of-exactly-the-victims] arg0 == segmentsToDelete
+//@ end
